@@ -347,7 +347,7 @@ Lemma do_close_W x e sid s : KeysOK s -> KeysOK (do_close e sid s) /\ W x (do_cl
 Proof.
   intro K. unfold do_close. set (k := key e sid). set (v := streams s k).
   destruct (alive v); cbn [negb]; [| split; [exact K | reflexivity]].
-  set (nv := {| alive := false; half := half v; infb := infb v; sendb := []; sheap := false; recvb := []; cpin := false; pinned := []; pend := [] |}).
+  set (nv := {| alive := false; half := half v; infb := infb v; sendb := []; sheap := false; recvb := []; cpin := false; pinned := []; scpin := false; rheap := false; pend := [] |}).
   set (s2 := add_free (pslots (pend v) ++ rslots (recvb v) ++ sendb v) (set_stream k nv s)).
   set (s3 := if fx s then add_free (pinned v) s2 else add_leaked (pinned v) s2).
   assert (K3 : KeysOK s3) by (unfold s3, s2; destruct (fx s); ko).
@@ -530,7 +530,7 @@ Proof.
     { unfold is_open in Er. destruct (alive v); [reflexivity | cbn in Er; discriminate]. }
     destruct (recvb v) as [|a [|a' t]]; [| destruct (rs_slot a) |]; qfr; qss; try (rewrite Ea in Hdead; discriminate); exact H.
   - unfold do_close. set (k := key e sid). set (v := streams s k). destruct (alive v); cbn [negb]; [| exact H].
-    set (nv := {| alive := false; half := half v; infb := infb v; sendb := []; sheap := false; recvb := []; cpin := false; pinned := []; pend := [] |}).
+    set (nv := {| alive := false; half := half v; infb := infb v; sendb := []; sheap := false; recvb := []; cpin := false; pinned := []; scpin := false; rheap := false; pend := [] |}).
     assert (H2 : Q f (add_free (pslots (pend v) ++ rslots (recvb v) ++ sendb v) (set_stream k nv s))).
     { qfr. apply Q_set_stream; [intros _; reflexivity | exact H]. }
     assert (H3 : Q f (if fx s then add_free (pinned v) (add_free (pslots (pend v) ++ rslots (recvb v) ++ sendb v) (set_stream k nv s))
